@@ -528,6 +528,7 @@ func (c *Ctx) atCallEffects(fr *Frame, st *State, site ssa.Instruction, callee *
 		for k, v := range cenv.vars {
 			env.vars["callee."+k] = v
 		}
+		c.calleeRenames(env, callee, cenv)
 		c.applyEffect(env, st, a.Effect)
 		c.atCallSeen[a] = true
 	}
@@ -562,6 +563,7 @@ func (c *Ctx) atCallAsserts(fr *Frame, st *State, site ssa.Instruction, callee *
 		for k, v := range cenv.vars {
 			env.vars["callee."+k] = v
 		}
+		c.calleeRenames(env, callee, cenv)
 		env.vars["callee.fd"] = intVal(cenv.fd)
 		if a.Effect != nil {
 			continue
@@ -569,6 +571,28 @@ func (c *Ctx) atCallAsserts(fr *Frame, st *State, site ssa.Instruction, callee *
 		g := env.evalTop(a.Clause)
 		c.oblige("assert", fmt.Sprintf("%s#at-call[%s].assert[%s]", c.relName(top.fn), c.relName(callee), lbl(a.Clause)), a.Clause.Label, a.Clause.Props, g.Term, site.Pos(), a.Clause.Src)
 		c.atCallSeen[a] = true
+	}
+}
+
+// calleeRenames: a parameter of the callee that was renamed since the contracts were written is still
+// reachable under its recorded name (see locals.go).
+func (c *Ctx) calleeRenames(env *Env, callee *ssa.Function, cenv *Env) {
+	table := c.prog.Locals[c.prog.fnKey(callee)]
+	if len(table) == 0 {
+		return
+	}
+	for i, p := range callee.Params {
+		if i >= len(table) || table[i].Kind != "param" {
+			return
+		}
+		if old := table[i].Name; old != p.Name() {
+			if _, bound := env.vars["callee."+old]; !bound {
+				if v, ok := cenv.vars[p.Name()]; ok {
+					env.vars["callee."+old] = v
+					c.prog.noteRename(callee, old, p.Name())
+				}
+			}
+		}
 	}
 }
 
